@@ -6,6 +6,11 @@ CLAIMED = {
         "note": "Decides layout/table/refusal agreement, not value-level round-trip equality (parse(serialize(x)) == x is not evaluated). Trusts CPython ast and the frozen encoder/decoder pair tables in rules/C05.py.",
         "technique": "static analysis: AST layout-atom extraction, constant folding of tables, CFG must-pass-through",
     },
+    "C11": {
+        "text": "Static decision of the structural conditions of lossless, non-aliasing PSBT roles: combine merges every dataclass field of PsbtIn/PsbtOut/Psbt (identity fields excepted, and those are never merged) using the is-None helper exactly for fields the serializer writes when not None; version/identifier/validity checks dominate the first merge; only a reviewed table of functions stores into the fields that make the unsigned transaction and finalization keeps them; assert_signatures_only compares every non-signature field, verifies every new signature on every path to return, and request_signatures checks before it merges; an interprocedural alias/effect analysis shows no role mutates its Psbt arguments or returns (part of) them.",
+        "note": "Does not decide order-independence/idempotence as equality of results, nor deep sharing of immutable parts. Effect summaries assume helpers return fresh objects unless they return a parameter through assignment/attribute/subscript/iteration/shallow copy, and that caller-supplied callables do not mutate their arguments.",
+        "technique": "static analysis: dataclass-field vs call-site table comparison, CFG dominance, who-may-write census, interprocedural alias/mutation summaries",
+    },
 }
 
 _PENDING = "check not built yet in this session (static rules designed in DESIGN.md section 4)"
